@@ -354,7 +354,7 @@ def build_rect(e, nx, ny, nz, atm, convention, nsurf, block_order=None, origin=N
     statement talks about, computed from the inputs (not from the code)."""
     m = e.load_module('mulgrids').globals
     dx = [e.sym_real('dx%d' % k) for k in range(nx)]; dy = [e.sym_real('dy%d' % k) for k in range(ny)]; dz = [e.sym_real('dz%d' % k) for k in range(nz)]
-    org = list(origin) if origin is not None else [3, -7, e.sym_real('oz')]           # horizontal origin concrete (the centroid formula is quadratic in it); elevation origin symbolic
+    org = list(origin) if origin is not None else [e.sym_real('ox'), e.sym_real('oy'), e.sym_real('oz')]
     for v in dx + dy + dz:
         e.assume(v > 0)
     g0 = e.call(m['mulgrid'], [])
